@@ -13,10 +13,102 @@ package peer
 //@ ghost var readySends Int
 //@ ghost var badSends Int
 //@ ghost var badAdvances Int
-//@ func (*Peer).handleReady
+// handleReady itself (C21/C22 kernel): what a Ready asks to persist is persisted before any
+// committed entry of that Ready is handed to the apply function; the committed normal
+// entries are handed over in ONE call (no entry twice), after the apply watermark has
+// begun them and before it finishes them.
+//@ ghost var readyAppends Int
+//@ ghost var readyHardStates Int
+//@ ghost var peerApplyCalls Int
+//@ ghost var applySawAppends Int
+//@ ghost var applySawHardStates Int
+//@ ghost var peerBegins Int
+//@ ghost var applySawBegins Int
+//@ ghost var peerFinishes Int
+//@ ghost var finishSawApplies Int
+//@ func github.com/feichai0017/NoKV/raftstore/engine::(PeerStorage).Append
 //@   trusted
+//@   ghost readyAppends = (result == nil ? readyAppends + 1 : readyAppends)
+//@   modifies nothing
+//@ func github.com/feichai0017/NoKV/raftstore/engine::(PeerStorage).SetHardState
+//@   trusted
+//@   ghost readyHardStates = (result == nil ? readyHardStates + 1 : readyHardStates)
+//@   modifies nothing
+//@ func github.com/feichai0017/NoKV/raftstore/engine::(PeerStorage).ApplySnapshot
+//@   trusted
+//@   modifies nothing
+//@ func field (Peer).apply
+//@   trusted
+//@   ghost peerApplyCalls = peerApplyCalls + 1
+//@   ghost applySawAppends = readyAppends
+//@   ghost applySawHardStates = readyHardStates
+//@   ghost applySawBegins = peerBegins
+//@   modifies nothing
+//@ func (*Peer).beginApply
+//@   trusted
+//@   ghost peerBegins = peerBegins + 1
+//@   modifies nothing
+//@ func (*Peer).finishApply
+//@   trusted
+//@   ghost peerFinishes = peerFinishes + 1
+//@   ghost finishSawApplies = peerApplyCalls
+//@   modifies nothing
+//@ func (*raftLogTracker).setInjected
+//@   trusted
+//@   modifies nothing
+//@ func (*raftLogTracker).injectFailure
+//@   trusted
+//@   modifies nothing
+//@ func (*raftLogTracker).capturePointer
+//@   trusted
+//@   modifies nothing
+//@ func github.com/feichai0017/NoKV/raftstore/failpoints::ShouldFailBeforeStorage
+//@   trusted
+//@   modifies nothing
+//@ func github.com/feichai0017/NoKV/raft::var IsEmptySnap
+//@   trusted
+//@   modifies nothing
+//@ func (*Peer).markSnapshotApplied
+//@   trusted
+//@   modifies nothing
+//@ func (*Peer).handleReadStates
+//@   trusted
+//@   modifies nothing
+//@ func (*Peer).handleConfChange
+//@   trusted
+//@   modifies nothing
+//@ func (*Peer).applyAdminCommand
+//@   trusted
+//@   modifies nothing
+//@ func (*Peer).maybeCompact
+//@   trusted
+//@   modifies nothing
+//@ func isAdminEntry
+//@   trusted
+//@   modifies nothing
+//@ func decodeAdminCommand
+//@   trusted
+//@   modifies nothing
+//@ func go.etcd.io/raft/v3::(*RawNode).ApplyConfChange
+//@   trusted
+//@   modifies nothing
+//@ func go.etcd.io/raft/v3/raftpb::(ConfChange).AsV2
+//@   trusted
+//@   modifies nothing
+// (frames: these callees do not touch what handleReady keeps using - its Ready value and
+// the local toApply slice; their own effects are not specified here)
+
+//@ func (*Peer).handleReady
+//@   property C21 C22
+//@   requires p != nil && p.storage != nil && p.node != nil
 //@   ghost lastReadyFailed = result != nil
-//@   modifies heap
+//@   ensures [entries-persisted-before-apply] peerApplyCalls > old(peerApplyCalls) && len(rd.Entries) > 0 ==> applySawAppends > old(readyAppends)
+//@   ensures [one-apply-call-per-ready] peerApplyCalls <= old(peerApplyCalls) + 1 && peerApplyCalls >= old(peerApplyCalls)
+//@   ensures [begun-before-applied] peerApplyCalls > old(peerApplyCalls) ==> applySawBegins > old(peerBegins)
+//@   ensures [finished-after-applied] peerApplyCalls > old(peerApplyCalls) ==> peerFinishes > old(peerFinishes) && finishSawApplies == peerApplyCalls
+//@   ensures [failed-persist-applies-nothing] result != nil && len(rd.Entries) > 0 && readyAppends == old(readyAppends) ==> peerApplyCalls == old(peerApplyCalls)
+//@   modifies heap, ghost(readyAppends), ghost(readyHardStates), ghost(peerApplyCalls), ghost(applySawAppends), ghost(applySawHardStates), ghost(peerBegins), ghost(applySawBegins), ghost(peerFinishes), ghost(finishSawApplies)
+//@   loop 1 invariant [collecting] len(rd.CommittedEntries) > 0 && peerApplyCalls == old(peerApplyCalls) && peerFinishes == old(peerFinishes) && peerBegins == old(peerBegins) + 1 && (len(rd.Entries) > 0 ==> readyAppends > old(readyAppends)) && p != nil
 //@ func (*Peer).sendMessages
 //@   trusted
 //@   ghost readySends = readySends + 1
